@@ -64,6 +64,31 @@ def module_rows(ctx: Ctx, mname, group, rng):
     for P in pts[:4] + [O] + pts[-2:]:
         row("double", P, None, lambda: m.double(P))
         row("neg", P, None, lambda: m.neg(P))
+    # the line functions of the pairing module (generic in the field): chord, tangent (also through two
+    # representatives of one point), vertical, evaluated at another curve point
+    pm = importlib.import_module(SPECS[mname][0] + "." + {"bn128": "bn128_pairing", "bls12_381": "bls12_381_pairing",
+                                                         "optimized_bn128": "optimized_pairing",
+                                                         "optimized_bls12_381": "optimized_pairing"}[mname])
+    inv = (lambda a: (f_inv(p, a[0]),)) if d == 1 else (lambda a: f2_inv(p, a))
+    mul = (lambda a, b: (a[0] * b[0] % p,)) if d == 1 else (lambda a, b: f2_mul(p, a, b))
+    lcases = [(pts[0], pts[1], pts[2]), (pts[3], pts[3], pts[4]), (pts[3], m.neg(pts[3]), pts[0]), (pts[1], pts[4], pts[3])]
+    if api.fam == "opt":
+        lcases += [(pts[3], pts[-1], pts[0]), (pts[-1], m.neg(pts[3]), pts[1])]
+    for (P1, P2, T) in lcases:
+        A, B, C = api.affine(P1), api.affine(P2), api.affine(T)
+        r = {"cv": cv, "g": d, "op": "line", "m": mname + ".linefunc", "P": _L(A), "Q": _L(B), "T": _L(C),
+             "w": [limbs(c) for c in _slope(p, d, A, B)], "r": []}
+        try:
+            v = limited(lambda: pm.linefunc(P1, P2, T), 120)
+            if isinstance(v, tuple):                       # optimized: numerator, denominator
+                num, den = (tuple(int(c) for c in (x.coeffs if d == 2 else (x.n,))) for x in v)
+                val = mul(num, inv(den))
+            else:
+                val = tuple(int(c) for c in (v.coeffs if d == 2 else (v.n,)))
+            r["r"] = [[limbs(c) for c in val]]
+        except Exception as e:  # noqa: BLE001
+            r["exc"] = f"EXC:{type(e).__name__}:{e}"[:120]
+        rows.append(r)
     return rows
 
 
